@@ -272,10 +272,10 @@ func (s *Solver) Check() SatResult {
 	}
 	if line == "unknown" || line == "timeout" {
 		// the per-query time limit is wall-clock: on a loaded machine a query that normally takes a second
-		// can run out of it. One more attempt with a six times longer limit before the path is inconclusive.
-		long, short := "(set-option :timeout 120000)\n", "(set-option :timeout 20000)\n"
+		// can run out of it. One more attempt with a thirty times longer limit before the path is inconclusive.
+		long, short := "(set-option :timeout 600000)\n", "(set-option :timeout 20000)\n"
 		if strings.HasPrefix(*flagSolver, "cvc5") {
-			long, short = "(set-option :tlimit-per 120000)\n", "(set-option :tlimit-per 20000)\n"
+			long, short = "(set-option :tlimit-per 600000)\n", "(set-option :tlimit-per 20000)\n"
 		}
 		t1 := time.Now()
 		s.send(long + "(check-sat)\n")
